@@ -238,6 +238,11 @@ def run(chk):
                 "multiplexing for dbc/json-all, 1..3 senders, 0..3 receivers per signal. one evaluation = one frame compared feature by feature per the "
                 "property's table; non-trivial = a factor/offset with more than 6 digits, a multiplexed, float or value-table signal; distinct by "
                 "(configuration, frame normal form)")
+    chk.notes.append("envelope decisions (DESIGN.md Appendix A): SYM has no place for a non-multiplexed signal in a multiplexed frame (the writer repeats it "
+                     "in every Mux= block, the reader returns one copy per block with that block's selector) - generated SYM multiplexed frames hold the "
+                     "multiplexer and group signals only; KCD multiplexers are Intel, unsigned, unscaled; extended multiplexing only for DBC and JSON; "
+                     "cluster files are generated with file-wide unique frame names (and signal names for ARXML); frames flagged for extended multiplexing "
+                     "without any multiplexed signal are treated as plain frames")
     ok = chk.build_and_audit()
     cm = core.import_impl()
     C = cm.canmatrix
